@@ -772,8 +772,14 @@ func envCase(oldEnv, newEnv starlark.Value, alias string) {
 		return
 	}
 	if len(differ) == 0 {
-		// the environments differ only in a key outside functionEnvKeys: nothing the reason could name
+		// the environments differ only in a key outside functionEnvKeys: nothing the reason could name; the generic
+		// reason, with the (faithful) diff
 		stats["env.differs_outside_keys"]++
+		if reason != "environment changed" || d == nil {
+			emitV(map[string]any{"kind": "reason", "detail": fmt.Sprintf("the environments differ in no listed part; expected (false, \"environment changed\", diff), got %s", ans), "input": in})
+		} else if msg := judge(d, oldEnv, newEnv, 1000); msg != "" {
+			emitV(map[string]any{"kind": "unfaithful", "detail": "diff shown with the generic reason: " + msg, "input": in})
+		}
 		return
 	}
 	var want string
